@@ -10,6 +10,7 @@ import sys
 from engine import evidence
 from engine import explorer
 from engine import harness
+from engine import instrument
 from engine.parallel import pmap
 
 from .common import Session
@@ -119,6 +120,10 @@ def script(name, gw, T, size):
 PROGRAMS = list(REMOTE)
 
 
+def GC_PRED(m, q, l):
+    return (m == "gateway_base" and q in ("BaseGateway._send", "Message.to_io", "Channel.send", "Popen2IO.write", "SocketIO.write")) or (m == "gateway_io" and q.startswith("ProxyIO.write"))
+
+
 class EqScn:
     """P: transport, backend, prog, size, explore"""
 
@@ -133,6 +138,14 @@ class EqScn:
             gw = S.open()
             T = []
             S.ctx["T"] = T
+            if P.get("gc"):
+                # an unreachable cycle holds a channel of this gateway; the collector may run at any
+                # statement of the sending path (Channel.__del__ then sends from inside _send)
+                c = gw.newchannel()
+                cyc = [c]
+                cyc.append(cyc)
+                del c, cyc
+                w.gc_mask = instrument.select(GC_PRED)
             w.exploring = bool(P.get("explore"))
             try:
                 script(P["prog"], gw, T, P["size"])
@@ -336,6 +349,15 @@ def run(tier: str, only=None) -> int:
                     bounds = {"ps": 1, "env": 1, "free": 0} if tier == "quick" else {"ps": 1, "env": 1, "free": 1}
                     harness.run_exploration(rep, PID, name, EqScn, P, bounds, max_execs=cap, horizon=200000)
             rep.sample({"program": prog, "size": size, "popen transcript": want[:200]})
+    # the cyclic collector running at any statement of the sending path (finalizers send from inside _send)
+    for size in sizes:
+        base = explorer.run_once(EqScn.scenario, EqScn.oracle, {"transport": "popen", "backend": "thread", "prog": "echo", "size": size}, [])
+        for tr in ("popen", "socket", "via"):
+            name = f"gc/echo:{size}:{tr}"
+            if only and only not in name:
+                continue
+            P = {"transport": tr, "backend": "thread", "prog": "echo", "size": size, "want": base.outcome, "explore": True, "gc": True}
+            harness.run_exploration(rep, PID, name, EqScn, P, {"ps": 0, "env": 1, "free": 0} if tier == "quick" else {"ps": 1, "env": 1, "free": 0}, max_execs=cap, horizon=200000)
     for op in ("kill", "close_write", "wait"):
         if only and "ctl" not in only:
             continue
